@@ -381,8 +381,10 @@ def motif_base_hook_fault(rng):
         return [["y", ["item", rng.randint(0, kinds - 1), rng.randint(0, 5)]] for _ in range(m)]
     ov = rng.choice([["sv", 0, 7], ["sv", 1, 8], ["attr", 9]])
     inner = [["with", ["ctx"], items(rng.randint(2, 3))]]
+    nth = 2  # the plain context is the second context the victim makes ...
     if rng.random() < 0.4:
         inner = [["with", rng.choice([["sv", 1, 5], ["attr", 6]]), inner]]
+        nth = 3  # ... or the third
     victim = [["with", ov, inner + items(rng.randint(0, 1))]]
     if rng.random() < 0.5:
         victim = [["try", victim, "base", items(rng.randint(0, 1))]]
@@ -393,7 +395,7 @@ def motif_base_hook_fault(rng):
                  {"kind": "fn", "steps": victim}, {"kind": "fn", "steps": sib}]
     return {"templates": templates, "root": {"tmpl": 0, "conv": rng.choice(["call", "value", "wrapped"])},
             "kinds": kinds, "svs": 2, "yield_only": True, "reentry": False, "ctx_fault": True,
-            "faults": {"items": {}, "flushes": {}, "ctx": {"#1": [rng.choice(["pause", "resume"]), 2, "base"]}},
+            "faults": {"items": {}, "flushes": {}, "ctx": {"r.%d.c%d" % (k_, nth - 1): [rng.choice(["pause", "resume"]), 2, "base"] for k_ in (0, 1)}},
             "prio": gen_prio(rng, kinds)}
 
 
